@@ -124,7 +124,7 @@ func checkPartialOne(e *lib.Entry, in []byte, typ int, c PartialCase, r *ev.Rec)
 		return fmt.Errorf("%s rejected %d bytes (%v) and returned a value; then %s", e.Name, len(in), res.Err, strings.Join(append(sw.Panics, bad...), "; "))
 	}
 	if sw.Calls >= 1 {
-		r.NonTrivial(nil, []byte(e.Name), in)
+		r.NonTrivial(map[string]any{"entry": e.Name, "typ": typ, "rejected_input_hex": ev.H(in), "how": c.How}, []byte(e.Name), in)
 	}
 	return nil
 }
